@@ -9,13 +9,15 @@ export GOFLAGS=-mod=mod GOPROXY=off GOSUMDB=off GOTOOLCHAIN=local VERIF_DIR=$VER
 REPO=${VERIF_REPO:-/repo}
 SCR=$(mktemp -d "${TMPDIR:-/tmp}/verif-XXXXXX") || exit 2
 trap 'rm -rf "$SCR"' EXIT
-if [ ! -x "$VERIF/bin/vinst" ]; then
+if [ ! -x "$VERIF/bin/vinst" ] || [ "$VERIF/vinst/main.go" -nt "$VERIF/bin/vinst" ]; then
   (cd "$VERIF/vinst" && go build -o "$VERIF/bin/vinst" .) || { echo "cannot build vinst" >&2; exit 2; }
 fi
 ACCESS=""
 case "${1:-}" in C11|C12) ACCESS="-access";; replay) grep -q '"engine": "conc-' "${2:-/dev/null}" 2>/dev/null && ACCESS="-access";; esac
 [ "${VERIF_ACCESS:-}" = 1 ] && ACCESS="-access"
-"$VERIF/bin/vinst" $ACCESS "$SCR/ov" "$VERIF/vrt" "$REPO" > "$SCR/vinst.log" 2>&1 || { cat "$SCR/vinst.log" >&2; echo "instrumentation failed" >&2; exit 2; }
+AS=""
+[ "$REPO" != "/repo" ] && AS="-as /repo"   # development: check a scratch copy (never used by registered commands)
+"$VERIF/bin/vinst" $ACCESS $AS "$SCR/ov" "$VERIF/vrt" "$REPO" > "$SCR/vinst.log" 2>&1 || { cat "$SCR/vinst.log" >&2; echo "instrumentation failed" >&2; exit 2; }
 cp "$REPO/go.sum" "$VERIF/go.sum" 2>/dev/null
 go build -overlay "$SCR/ov/overlay.json" -o "$SCR/vcheck" ./cmd/vcheck > "$SCR/build.log" 2>&1 || { cat "$SCR/build.log" >&2; echo "build failed" >&2; exit 2; }
 # C11/C12 (and their replays) also need the plain -race build for the free-running pass
